@@ -1508,7 +1508,11 @@ func (d *decoder[T]) decode(iv interface{}) {
 		// not addressable byte slice, so do not decode into it past the length
 		d.decodeBytesInto(v[:len(v):len(v)], true)
 	case *time.Time:
-		*v = d.d.DecodeTime()
+		if d.h.timeBuiltin {
+			*v = d.d.DecodeTime()
+		} else { // TimeNotBuiltin: what decFnLoad chooses (extension, unmarshaler), in every position
+			d.decodeValue(reflect.ValueOf(v), nil)
+		}
 	case *Raw:
 		*v = d.rawBytes()
 
